@@ -656,10 +656,10 @@ def c02_h(ctx):
                       .format(a, show(kt)[:60]), fn=eo, node=s)
         # the looked-up key is the stored key
         reads = [n for n in own_nodes(eo.node) if isinstance(n, ast.Return) and n.value is not None
-                 and isinstance(n.value, ast.Subscript)]
-        okr = bool(reads) and all(ex.term(r.value.slice) == ex.term(t.slice) for r in reads
-                                  if contains(ex.term(r.value.value), "'_executor_cache'") and
-                                  len(kp) == 1)
+                 and ex.term(n.value)[0] == 'sub' and
+                 contains(ex.term(n.value)[1], "'_executor_cache'")]
+        okr = bool(reads) and all(ex.term(r.value)[2] == ex.term(t.slice) for r in reads
+                                  if len(kp) == 1)
         ctx.check(okr, eo, 'lookup and store use the same key', '', 'the order is looked up under '
                   'another key than it is stored under', fn=eo, node=reads[0] if reads else s)
 
